@@ -62,7 +62,7 @@ CHECKS = {
     },
     "C05": {
         "text": "Proved for any F: recovery from ANY collection whose first share is honest returns that sharing or exhibits a MAC coincidence; an honest tag binds (t, M, R, T) up to a MAC coincidence; whatever is returned verifies under the first share's threshold and MAC; an altered tag is always rejected; non-first fields are ignored; never panics; the mechanism of the empty-sharing finding is a theorem (with M and R empty nothing depends on the sharing key). Fault campaign against the Rust on every run.",
-        "note": 'Known findings C05/t1-share-point and C05/empty-sharing are listed in known_findings.json.',
+        "note": 'Known findings C05/t1-share-point and C05/short-sharing (message and coins shorter than 16 bytes together) are listed in known_findings.json.',
     },
     "C08": {
         "text": 'Proved: decode(encode v) = v for Shamir shares, adss shares and reports; chunk helper round trip; an accepted chunk is the slice its header delimits; out-of-range elements rejected exactly; canonical form: whatever string a decoder accepts, re-encoding the decoded value gives the canonical string, which decodes to the same value (sharks, adss share, report); all four decoders total (no Panic outcome). Re-encoding also checked against an independent parser on every run.',
